@@ -1,4 +1,5 @@
 """C08: vehicle energy and battery state follow the powertrain model along a route."""
+import glob
 import json
 import os
 
@@ -60,16 +61,46 @@ def run(chk):
         "(feature units may differ from the engine's: they are universally quantified)",
         "cached predictions: covered by the correspondence stream and by the per-call theorem cache_transparent; "
         "key collisions are the known limitation D-CACHE"]
+    # the unit tables the model imports are regenerated from the Rust sources on every run (owned by C09)
+    tres = vf.run_translators(which=["units"]).get("units", {"ok": False, "msg": "translator module tr_units.py missing"})
+    tres.pop("parsed", None)
+    chk.coverage["translator_units"] = {k: tres.get(k) for k in ("ok", "msg", "digest", "changed")}
+    if not tres.get("ok"):
+        chk.violation("broken-correspondence", "translator", {"translator": "tr_units", "error": tres.get("msg")},
+                      tres.get("msg"), "the unit sources have the shape the translator knows",
+                      detail="coq/Gen/UnitTables.v could not be regenerated (see property C09)", found=False, key="translator")
     chk.proofs(extra_targets=["Model/VehicleRun.vo"])
     binp = vf.build_harness("c08")
     quick = chk.tier == "quick"
+    judge = ["--judge-collisions"] if "K_cache_collision" in chk.finding_ids() else []
+    # corpus first: witnesses of the seeded mutations, boundary cases and the D-CACHE exhibit, replayed in full
+    if not chk.replay:
+        for stream in ("route", "cache"):
+            descs = []
+            for f in sorted(glob.glob(os.path.join(vf.ROOT, "corpus", "C08", "*.json"))):
+                v = json.load(open(f))
+                if v.get("stream") == stream:
+                    descs.append(v["case"])
+            if not descs:
+                continue
+            cdir = os.path.join(chk.outdir, "corpus_" + stream)
+            os.makedirs(cdir, exist_ok=True)
+            batch = os.path.join(cdir, "corpus_cases.json")
+            json.dump({"cases": descs}, open(batch, "w"))
+            rc = vf.run_stream(binp, stream, len(descs), chk.seed, os.path.join(cdir, "run"), extra=judge, shards=4, replay=batch)
+            rc.name = "corpus_" + stream
+            chk.add_stream(rc, "corpus/C08/*.json of stream %s replayed with full payloads" % stream)
+            vf.compare(chk, rc, classify=classify, binpath=binp, extra=judge, stream_label="corpus_" + stream)
+            if stream == "cache":
+                corpus_verdicts = rc.model.get("V", {})
+                chk.coverage["d_cache_exhibit_corpus"] = sorted(set(corpus_verdicts.values()))[:5]
     if _is(chk, "route"):
-        r = vf.run_stream(binp, "route", 700 if quick else 12000, chk.seed, os.path.join(chk.outdir, "route"), replay=chk.replay)
+        r = vf.run_stream(binp, "route", 500 if quick else 12000, chk.seed, os.path.join(chk.outdir, "route"), replay=chk.replay)
         chk.add_stream(r, RULE_ROUTE)
         vf.compare(chk, r, classify=classify, binpath=binp)
     if _is(chk, "cache"):
-        extra = ["--judge-collisions"] if "K_cache_collision" in chk.finding_ids() else []
-        r2 = vf.run_stream(binp, "cache", 300 if quick else 4000, chk.seed, os.path.join(chk.outdir, "cache"),
+        extra = judge
+        r2 = vf.run_stream(binp, "cache", 200 if quick else 4000, chk.seed, os.path.join(chk.outdir, "cache"),
                            extra=extra, replay=chk.replay)
         chk.add_stream(r2, RULE_CACHE)
         vf.compare(chk, r2, classify=classify, binpath=binp, extra=extra)
